@@ -194,17 +194,21 @@ def processLine (acc : Acc) (line : String) : Acc :=
         let bankChanged := !(dkv.get "b").isEmpty || !(dkv.get "s").isEmpty
         let newAccts := (listOf (dkv.get "accts")).map (fun a => hexB (a.drop 1).toString)
         let mres := step acc.env pre op
+        -- `later=1`: a later message of the same transaction failed (class `rej:later` when this message's handler
+        -- had succeeded): the transaction's branch is discarded, nothing changed, whatever the handler did
+        let later := kv.get "later" == "1"
         let (modelOk, modelPost, modelRej) :=
           match mres with
-          | .ok (s', _) => (true, s', "")
+          | .ok (s', _) => if later then (false, pre, "later") else (true, s', "")
           | .error e => (false, pre, rejName e)
+        let handlerOk := match mres with | .ok _ => true | .error _ => false
         let modelAccts : List Bytes :=
           match pre.port, modelPost.port with
           | none, some a => [a]
           | _, _ => []
         let badIds := ids.filter (fun q => query modelPost q != query implPost q)
         let comps : List String :=
-          (if modelOk != implOk then ["outcome"] else []) ++
+          (if modelOk != implOk || (later && handlerOk != (implClass == "rej:later")) then ["outcome"] else []) ++
           (if modelPost.port != implPost.port then ["port"] else []) ++
           (if modelPost.nonce != implPost.nonce then ["nonce"] else []) ++
           (if modelPost.nextGovId != implPost.nextGovId then ["next"] else []) ++
@@ -215,7 +219,7 @@ def processLine (acc : Acc) (line : String) : Acc :=
         let viol := Spec.monitors.filterMap (fun (pid, name, f) => if f tr then none else some s!"{seq} V {pid} {name}")
         let br := branchOf acc.env pre op mres
         let sz := if modelOk || br.endsWith "-gas" then sizeClass (payload op) else "-"
-        let tag := s!"{br}/{if implOk then "ok" else "rej"}/{sz}"
+        let tag := s!"{br}/{if implOk then "ok" else "rej"}/{sz}{if later then "/later" else ""}"
         let l :=
           if comps.isEmpty then s!"{seq} A {tag}"
           else s!"{seq} D {tag} comps={",".intercalate comps} model={if modelOk then "ok" else "rej:" ++ modelRej} impl={implClass} " ++
